@@ -136,15 +136,50 @@ theorem update_bytes (c : Cfg) (k : Kind) (hbw : 0 < c.bw) (s : St) (i : Inv c k
   unfold update writeHeader
   simp only [if_true, calc_snapshot c k hbw s i, St.bytes, i.tail, List.append_nil, snapHdr]
 
-/-- `calcLengths` after the tailer -/
+/-- `calcLengths` after the tailer: the pad byte is in the file length only -/
 theorem calc_closed (c : Cfg) (k : Kind) (hbw : 0 < c.bw) (s : St) (i : Inv c k s) :
-    calcLengths c k (writeTailer s) = ((s.data.length + padLen s.data.length) / c.bw,
-      ((hdrLen c k + s.data.length + padLen s.data.length : Nat) : Int), ((s.data.length + padLen s.data.length : Nat) : Int)) ∧
+    calcLengths c k (writeTailer s) = (s.data.length / c.bw,
+      ((hdrLen c k + s.data.length + padLen s.data.length : Nat) : Int), ((s.data.length : Nat) : Int)) ∧
     (writeTailer s).tail = tailBytes s.data.length ∧ (writeTailer s).data = s.data ∧ (writeTailer s).peaks = s.peaks := by
   have he := hdrLen_even c k
   have hbw' : c.bw > 0 := hbw
   have hlen : (s.hdr ++ s.data).length = hdrLen c k + s.data.length := by simp [i.hlen]
+  have hl : hdrLen c k ≥ 54 := by unfold hdrLen; split <;> omega
   unfold writeTailer calcLengths padLen tailBytes
+  rw [hlen]
+  have hz : ((hdrLen c k + s.data.length : Nat) : Int) ≠ 0 := by omega
+  by_cases hodd : s.data.length % 2 = 1
+  · have h1 : ((hdrLen c k + s.data.length : Nat) : Int) % 2 = 1 := by omega
+    simp only [h1, if_true, hodd, St.bytes, List.length_append, i.hlen, List.length_cons, List.length_nil, hbw']
+    simp only [hz, ne_eq, not_false_eq_true, if_true]
+    have e1 : (((hdrLen c k + s.data.length + (0 + 1) : Nat) : Int) - (hdrLen c k : Int) - (((hdrLen c k + s.data.length + (0 + 1) : Nat) : Int) - ((hdrLen c k + s.data.length : Nat) : Int))) = ((s.data.length : Nat) : Int) := by omega
+    rw [e1, nat_ediv_toNat]
+    simp
+  · have h0 : s.data.length % 2 = 0 := by omega
+    have h1 : ¬ ((hdrLen c k + s.data.length : Nat) : Int) % 2 = 1 := by omega
+    have h01 : ¬ ((0 : Nat) = 1) := by decide
+    simp only [h1, if_false, h0, h01, St.bytes, List.length_append, i.hlen, List.length_nil, Nat.add_zero, hbw', if_true]
+    simp only [hz, ne_eq, not_false_eq_true, if_true]
+    have e1 : (((hdrLen c k + s.data.length : Nat) : Int) - (hdrLen c k : Int) - (((hdrLen c k + s.data.length : Nat) : Int) - ((hdrLen c k + s.data.length : Nat) : Int))) = ((s.data.length : Nat) : Int) := by omega
+    rw [e1, nat_ediv_toNat]
+    simp
+
+/-- `aiff_close` on a state between calls: header of the final lengths, the audio, the pad byte -/
+theorem close_bytes (c : Cfg) (k : Kind) (hbw : 0 < c.bw) (s : St) (i : Inv c k s) :
+    (close c k s).bytes = closedHdr c k s.data.length s.peaks ++ s.data ++ tailBytes s.data.length := by
+  obtain ⟨h1, h2, h3, h4⟩ := calc_closed c k hbw s i
+  unfold close writeHeader
+  simp only [if_true, h1, St.bytes, h2, h3, h4, closedHdr]
+
+/-- the old tailer: the pad byte entered datalength and the frame count -/
+theorem calc_closed_old (c : Cfg) (k : Kind) (hbw : 0 < c.bw) (s : St) (i : Inv c k s) :
+    calcLengths c k (writeTailerOld s) = ((s.data.length + padLen s.data.length) / c.bw,
+      ((hdrLen c k + s.data.length + padLen s.data.length : Nat) : Int), ((s.data.length + padLen s.data.length : Nat) : Int)) ∧
+    (writeTailerOld s).tail = tailBytes s.data.length ∧ (writeTailerOld s).data = s.data ∧ (writeTailerOld s).peaks = s.peaks := by
+  have he := hdrLen_even c k
+  have hbw' : c.bw > 0 := hbw
+  have hlen : (s.hdr ++ s.data).length = hdrLen c k + s.data.length := by simp [i.hlen]
+  unfold writeTailerOld calcLengths padLen tailBytes
   rw [hlen]
   by_cases hodd : s.data.length % 2 = 1
   · have h1 : ((hdrLen c k + s.data.length : Nat) : Int) % 2 = 1 := by omega
@@ -165,18 +200,17 @@ theorem calc_closed (c : Cfg) (k : Kind) (hbw : 0 < c.bw) (s : St) (i : Inv c k 
     rw [e1, nat_ediv_toNat]
     simp
 
-/-- `aiff_close` on a state between calls: header of the final lengths, the audio, the pad byte -/
-theorem close_bytes (c : Cfg) (k : Kind) (hbw : 0 < c.bw) (s : St) (i : Inv c k s) :
-    (close c k s).bytes = closedHdr c k s.data.length s.peaks ++ s.data ++ tailBytes s.data.length := by
-  obtain ⟨h1, h2, h3, h4⟩ := calc_closed c k hbw s i
-  unfold close writeHeader
-  simp only [if_true, h1, St.bytes, h2, h3, h4, closedHdr]
-
+theorem close_bytes_old (c : Cfg) (k : Kind) (hbw : 0 < c.bw) (s : St) (i : Inv c k s) :
+    (closeOld c k s).bytes = closedHdrOld c k s.data.length s.peaks ++ s.data ++ tailBytes s.data.length := by
+  obtain ⟨h1, h2, h3, h4⟩ := calc_closed_old c k hbw s i
+  unfold closeOld writeHeader
+  simp only [if_true, h1, St.bytes, h2, h3, h4, closedHdrOld]
 
 /-- `parse` of any header the writer can emit followed by a body the SSND size field describes -/
 theorem parse_hdrRaw (c : Cfg) (k : Kind) (hwf : c.wf) (hk : kindOf c = some k) (fr : Nat) (fl : Int)
-    (peaks : Option (List Peak)) (hpk : peaks.isSome = c.isFloat) (body : List Byte) (hB : body.length + 8 < 2 ^ 32) :
-    parse (hdrRaw c k fr fl (body.length : Int) peaks ++ body) =
+    (peaks : Option (List Peak)) (hpk : peaks.isSome = c.isFloat) (body tl : List Byte) (htl : tl.length ≤ 8)
+    (hB : body.length + 8 < 2 ^ 32) :
+    parse (hdrRaw c k fr fl (body.length : Int) peaks ++ (body ++ tl)) =
       .ok { ch := c.ch, fmt := c.fmtWord, sr := (ten2int (int2ten c.sr)).toNat, frames := body.length / c.bw } := by
   obtain ⟨fA, fC, _, _, _⟩ := cfg_facts c k hwf.1 hk
   have hb : ((bytewidthOf c.codec : Int) * 8) = ((bytewidthOf c.codec * 8 : Nat) : Int) := by omega
@@ -186,13 +220,13 @@ theorem parse_hdrRaw (c : Cfg) (k : Kind) (hwf : c.wf) (hk : kindOf c = some k) 
     cases peaks with
     | some ps => simp at hpk
     | none =>
-      have := parse_image_aiff c k hwf hk haifc (if fr > 0xFFFFFFFF then 0xFFFFFFFF else (fr : Int)) (fl - 8) body hB
+      have := parse_image_aiff c k hwf hk haifc (if fr > 0xFFFFFFFF then 0xFFFFFFFF else (fr : Int)) (fl - 8) body tl htl hB
       unfold hdrRaw
       simp only [haifc, Bool.false_eq_true, if_false, List.append_assoc, List.nil_append, List.append_nil, hb]
       exact this
   · cases peaks with
     | none =>
-      have := parse_image_aifc c k hwf hk haifc (if fr > 0xFFFFFFFF then 0xFFFFFFFF else (fr : Int)) (fl - 8) body hB
+      have := parse_image_aifc c k hwf hk haifc (if fr > 0xFFFFFFFF then 0xFFFFFFFF else (fr : Int)) (fl - 8) body tl htl hB
       unfold hdrRaw
       simp only [haifc, if_true, List.append_assoc, List.nil_append, List.append_nil, List.cons_append, hb] at this ⊢
       exact this
@@ -200,8 +234,8 @@ theorem parse_hdrRaw (c : Cfg) (k : Kind) (hwf : c.wf) (hk : kindOf c = some k) 
       have hsz : (8 + 8 * (c.ch : Int)) = ((8 + 8 * c.ch : Nat) : Int) := by omega
       have hq := flatMap_len8 (fun k => f32beWrite (ps.getD k {}).v32 ++ be32 (ps.getD k {}).pos) (by intro k; simp [f32beWrite_length, be32_length]) c.ch
       have := parse_image_peak c k hwf hk haifc (if fr > 0xFFFFFFFF then 0xFFFFFFFF else (fr : Int)) (fl - 8)
-        (be32 1 ++ (be32 1000000000 ++ ((List.range c.ch).flatMap fun k => f32beWrite (ps.getD k {}).v32 ++ be32 (ps.getD k {}).pos))) body
-        (by simp only [List.length_append, be32_length, hq]; omega) hB
+        (be32 1 ++ (be32 1000000000 ++ ((List.range c.ch).flatMap fun k => f32beWrite (ps.getD k {}).v32 ++ be32 (ps.getD k {}).pos))) body tl
+        (by simp only [List.length_append, be32_length, hq]; omega) htl hB
       unfold hdrRaw peakChunk
       simp only [haifc, if_true, List.append_assoc, List.nil_append, List.append_nil, List.cons_append, hb, hsz] at this ⊢
       exact this
